@@ -148,6 +148,7 @@ def _nonempty_literals(join_term, sel):
     masks = [x for x in T.walk(sel) if tag(x) == 'mask']
     for mk in masks[:1]:
         out.add(('mcall', mk[2], 'any', (), ()))
+        out.add(('call', ('g', 'numpy.any'), (mk[2],), ()))
         for inner in (sel, ('vals', sel), mk):
             l2 = ('call', ('g', 'builtins.len'), (inner,), ())
             out |= {('cmp', 'ne', C(0), l2), ('cmp', 'lt', C(0), l2), ('cmp', 'le', C(1), l2)}
@@ -225,6 +226,8 @@ def decision_table(ctx, rule='C02-R2'):
                     return neg[0], neg[1] if pol else not neg[1]
             if tag(base) == 'mcall' and base[2] == 'any' and not base[3]:
                 return ('C', base[1]), pol
+            if tag(base) == 'call' and base[1] == ('g', 'numpy.any') and len(base[2]) == 1 and not base[3]:
+                return ('C', base[2][0]), pol
             if tag(base) == 'cmp' and base[1] == 'is' and base[2] == mf.tbl and base[3] == T.NONE:
                 return 'PRE', pol
             if tag(base) == 'cmp' and base[1] == 'in' and base[2] == C(idcol):
